@@ -7,11 +7,12 @@ sys.path.insert(0, str(ROOT))
 props = [json.loads(l) for l in (ROOT / "properties.jsonl").read_text().splitlines() if l.strip()]
 na_path = ROOT / "docs" / "not_applicable.json"
 na = json.loads(na_path.read_text()) if na_path.exists() else {}
+claimed = set(json.loads((ROOT / "docs" / "claimed.json").read_text()))
 checks, not_app = [], []
 for p in props:
     pid = p["id"]
     modfile = ROOT / "harness" / "props" / f"{pid.lower()}.py"
-    if modfile.exists() and pid not in na:
+    if modfile.exists() and pid not in na and pid in claimed:
         mod = importlib.import_module(f"harness.props.{pid.lower()}")
         m = mod.META
         checks.append({
@@ -28,7 +29,7 @@ for p in props:
         })
     else:
         not_app.append({"property_id": pid,
-                        "reason": na.get(pid, "no check built yet in this development (see DESIGN.md §9)")})
+                        "reason": na.get(pid, "check under construction: not yet integrated and validated on the unchanged tree (see DESIGN.md §10)")})
 manifest = {
     "version": 1,
     "setup_cmd": "./setup.sh",
